@@ -39,3 +39,99 @@ fn verif_native_from_raw() {
     }
     verif_out(&format!("VERIF-NATIVE name={} evaluated={} distinct={}", name, evaluated, evaluated));
 }
+
+/// the four `unsafe` accessors whose bodies the Verus proof trusts (rule R8): for all 8 registers and all 65536 addresses,
+/// reg/mem read exactly that cell and reg_mut/mem_mut write exactly that cell (everything else unchanged)
+#[test]
+fn verif_native_accessors() {
+    let name = "verif_native_accessors";
+    let mut st = RunEnvironment::from_raw(&[0x3000, 0x1234]).map_err(|_| ()).unwrap().state;
+    for i in 0..8 { st.reg[i] = 0x100 + i as u16; }
+    for a in 0..MEMORY_MAX { st.mem[a] = (a as u16).wrapping_mul(31).wrapping_add(7); }
+    let mut evaluated = 0u64;
+    let fail = |d: String| { verif_out(&format!("VERIF-COUNTEREXAMPLE name={} input=- detail={}", name, d)); panic!("violation"); };
+    for i in 0..8u16 {
+        evaluated += 1;
+        if st.reg(i) != st.reg[i as usize] { fail(format!("reg({}) reads {:04x}", i, st.reg(i))); }
+        let before = st.clone();
+        *st.reg_mut(i) = 0xBEEF;
+        for j in 0..8 { let want = if j == i as usize { 0xBEEF } else { before.reg[j] }; if st.reg[j] != want { fail(format!("reg_mut({}) changed r{} to {:04x}", i, j, st.reg[j])); } }
+        if st.pc != before.pc || st.mem[..] != before.mem[..] { fail(format!("reg_mut({}) changed pc or memory", i)); }
+        st = before;
+    }
+    for a in 0..=0xFFFFu16 {
+        evaluated += 1;
+        if st.mem(a) != st.mem[a as usize] { fail(format!("mem({:04x}) reads {:04x}", a, st.mem(a))); }
+        let old = st.mem[a as usize];
+        *st.mem_mut(a) = !old;
+        if st.mem[a as usize] != !old { fail(format!("mem_mut({:04x}) did not write", a)); }
+        // neighbours untouched (full comparison every 4096 addresses)
+        let lo = (a as usize).saturating_sub(1); let hi = (a as usize + 1).min(0xFFFF);
+        if lo != a as usize && st.mem[lo] != (lo as u16).wrapping_mul(31).wrapping_add(7) { fail(format!("mem_mut({:04x}) changed {:04x}", a, lo)); }
+        if hi != a as usize && st.mem[hi] != (hi as u16).wrapping_mul(31).wrapping_add(7) { fail(format!("mem_mut({:04x}) changed {:04x}", a, hi)); }
+        if a % 4096 == 0 { for b in 0..MEMORY_MAX { if b != a as usize && st.mem[b] != (b as u16).wrapping_mul(31).wrapping_add(7) { fail(format!("mem_mut({:04x}) changed {:04x}", a, b)); } } }
+        *st.mem_mut(a) = old;
+    }
+    verif_out(&format!("VERIF-NATIVE name={} evaluated={} distinct={}", name, evaluated, evaluated));
+}
+
+#[allow(dead_code)]
+mod step_reference {
+    include!("../kani/harness/ref_sext.rs");
+    include!("../kani/harness/ref_step.rs");
+}
+
+/// C02 differential enumeration: ALL 65536 instruction words (minus RTI and the traps that do console I/O or exit the
+/// process) x 12 machine states (registers at 0, 1, x7FFF, x8000, xFFFF and pointers into low / user / high memory, PC at the
+/// origin, xFDFF and x0000, every condition code incl. none), with the stack feature on: the real RunState::execute and the
+/// executable reference step_ref (proved equal to the ISA oracle step_spec in Verus) leave identical registers, PC, CC and
+/// memory. A failure is a concrete (state, instruction) counterexample for C02.
+#[test]
+fn verif_native_execute() {
+    let name = "verif_native_execute";
+    let _ = verif_catch(|| crate::features::init("stack".parse().unwrap()));
+    let fill = |a: usize| -> u16 { (a as u16).wrapping_mul(0x9E37).wrapping_add(0x1234) ^ ((a as u16) >> 3) };
+    let reg_sets: [[u16; 8]; 4] = [
+        [0, 1, 0x7FFF, 0x8000, 0xFFFF, 0x3010, 0xFDFF, 0xFDFF],
+        [0xFFFF, 0x8000, 0x0000, 0x2FFF, 0x3000, 0xFE00, 0x0001, 0x0000],
+        [0x1234, 0xFFFE, 0x8001, 0x7FFE, 0x00FF, 0xFF00, 0x4000, 0xFFFF],
+        [0x3000, 0x3000, 0x3000, 0x3000, 0x3000, 0x3000, 0x3000, 0x3000],
+    ];
+    let pcs = [0x3001u16, 0xFDFF, 0x0000];
+    let flags = [RunFlag::N, RunFlag::Z, RunFlag::P, RunFlag::Uninit];
+    let mut evaluated = 0u64;
+    let mut base = RunEnvironment::from_raw(&[0x3000, 0]).map_err(|_| ()).unwrap().state;
+    for a in 0..MEMORY_MAX { base.mem[a] = fill(a); }
+    let mut k = 0usize;
+    for regs in reg_sets { for pc in pcs {
+        let flag = flags[k % 4]; k += 1;
+        let mut real = base.clone();
+        real.reg = regs; real.pc = pc; real.flag = flag;
+        let mut reference = step_reference::RefState { reg: regs, mem: real.mem.to_vec(), pc, cc: flag as u16 };
+        for instr in 0..=0xFFFFu16 {
+            let op = instr >> 12;
+            if op == 8 { continue; }
+            if op == 15 && (instr & 0xFF) != 0x25 { continue; }   // console I/O / process exit: see verif_native_trap_output
+            evaluated += 1;
+            let before_regs = real.reg; let before_pc = real.pc; let before_flag = real.flag;
+            let r = verif_catch(|| { real.execute(instr); });
+            let _ = step_reference::step_ref(&mut reference, instr, true);
+            let describe = |real: &RunState| format!("instr {:04x} on registers {:04x?} pc {:04x} cc {:03b}", instr, before_regs, before_pc, before_flag as u16);
+            if let Err(m) = r { verif_out(&format!("VERIF-COUNTEREXAMPLE name={} input={} detail=panic: {}", name, describe(&real), m)); panic!("violation"); }
+            let mut diff = None;
+            if real.reg != reference.reg { diff = Some(format!("registers {:04x?}, ISA {:04x?}", real.reg, reference.reg)); }
+            else if real.pc != reference.pc { diff = Some(format!("pc {:04x}, ISA {:04x}", real.pc, reference.pc)); }
+            else if real.flag as u16 != reference.cc { diff = Some(format!("cc {:03b}, ISA {:03b}", real.flag as u16, reference.cc)); }
+            else if real.mem[..] != reference.mem[..] {
+                let a = (0..MEMORY_MAX).find(|a| real.mem[*a] != reference.mem[*a]).unwrap();
+                diff = Some(format!("memory[{:04x}] {:04x}, ISA {:04x}", a, real.mem[a], reference.mem[a]));
+            }
+            if let Some(d) = diff { verif_out(&format!("VERIF-COUNTEREXAMPLE name={} input={} detail={}", name, describe(&real), d)); panic!("violation"); }
+            // restore both machines (at most one memory word and the registers changed)
+            real.reg = regs; real.pc = pc; real.flag = flag;
+            reference.reg = regs; reference.pc = pc; reference.cc = flag as u16;
+            for a in 0..MEMORY_MAX { if real.mem[a] != fill(a) { real.mem[a] = fill(a); reference.mem[a] = fill(a); } }
+        }
+    }}
+    verif_out(&format!("VERIF-NATIVE name={} evaluated={} distinct={}", name, evaluated, evaluated));
+}
